@@ -42,14 +42,14 @@ class Acc:
             self.cases += summ['cases']
             self.pinned += summ['pinned']
             self.distinct_lines += summ.get('distinct_lines', 0)
-            self.violations += summ['kept']
+            self.violations += summ['kept'] or []
             self.violations_total += summ['violations']
             self.unconfirmed += summ.get('unconfirmed', 0)
             self.steps += summ.get('steps', 0)
             self.node_kinds |= set(summ.get('node_kinds') or [])
             for k, v in summ['classes'].items():
                 self.classes[k] = self.classes.get(k, 0) + v
-            for s in summ['samples']:
+            for s in summ['samples'] or []:
                 if len(self.samples) < 8:
                     self.samples.append(s)
         self.exhaustive = self.exhaustive and exhaustive
